@@ -72,6 +72,9 @@ class Limit(Exception):
     """a documented limitation of dadi.Demes was hit (generator's fault, not a finding)"""
 
 LIMIT_PAT = re.compile(r'more than (five|5) demes|cannot integrate more than five')
+# C06's subject (guard of the pulse functions evaluated on permuted arguments: a zero proportion of the last population makes the
+# sum 1 +- one ulp) — reported there, skipped here
+C06_PAT = re.compile(r'Admixture proportions .* are non-sensible')
 
 def demes_sfs(dadi, gd, sd, st, ns, pts, **kw):
     g = resolve(gd)
@@ -79,11 +82,18 @@ def demes_sfs(dadi, gd, sd, st, ns, pts, **kw):
     try:
         fs = dadi.Demes.SFS(g, list(sd), list(ns), pts, sample_times=stt, **kw)
     except ValueError as e:
-        if LIMIT_PAT.search(str(e)): raise Limit(str(e))
+        if LIMIT_PAT.search(str(e)) or C06_PAT.search(str(e)): raise Limit(str(e))
         raise
     return np.asarray(np.ma.filled(fs, 0.0), dtype=float)
 
 def prog_sfs(dadi, ops, ns, pts, theta=1.0):
+    try:
+        return _prog_sfs(dadi, ops, ns, pts, theta)
+    except ValueError as e:
+        if C06_PAT.search(str(e)): raise Limit(str(e))
+        raise
+
+def _prog_sfs(dadi, ops, ns, pts, theta=1.0):
     return np.asarray(np.ma.filled(S.program_sfs(dadi, ops, pts, list(ns), theta=theta), 0.0), dtype=float)
 
 def prog_cost(ops, pts, tf=1e-3):
@@ -139,6 +149,9 @@ def agree(dadi, fa, fb, pts, cost, budget, ndim):
     with TF(dadi, 4):
         e4 = rel(fa(2 * pts), fb(2 * pts))
     if e4 <= TIGHT or e4 <= 0.15 * e1: return 'converging', [e1, e2, e3, e4]
+    # noise floor of these coarse grids: a difference below 2e-5 of the largest entry that stays below 1e-4 under every
+    # refinement is counted, not flagged (step partitions and near-cancelling splitting terms are not monotone at this level)
+    if e1 < 2e-5 and max(x for x in (e2, e3, e4) if x is not None) < 1e-4: return 'small', [e1, e2, e3, e4]
     return 'different', [e1, e2, e3, e4]
 
 REFINE_BUDGET = [20.0]
@@ -641,7 +654,7 @@ def run_export_case(chk, dadi, key, inp_json, ops, ns, pts, Nref, gt, cost):
         return demes_sfs(dadi, gd, ids, [0.0] * len(ids), ns, p) * nu0
     what = 'dadi program (%s) exported with Demes.output(Nref=%g, generation_time=%r) and re-imported' % (' '.join(o['op'] for o in ops), Nref, gt)
     v = check_pair(chk, dadi, key, what, inp_json, fa, lambda p: prog_sfs(dadi, ops, ns, p), pts, ndim, cost)
-    if v in ('tight', 'converging') and nu0 != 1.0:
+    if v in ('tight', 'converging', 'small') and nu0 != 1.0:
         chk.l3(('export-Ne', nu0))
         def fb(p):
             ids, gd = exported(p)
@@ -897,16 +910,17 @@ def run(chk, ctx):
                         'C06 wiring table Generated/Admix.lean (destination axis / source axes / coefficients of every PhiManip pulse and constructor)']
     def timed(name, f, *a):
         t0 = time.time(); f(*a); chk.notes.append('%s: %.1fs' % (name, time.time() - t0))
+    R = lambda name: common.Rng(ctx['seed'], 'C16/' + name)        # one stream per family: each is reproducible on its own
     if ctx['driver'] is not None and ctx['driver'].ok():
-        timed('K conversion', k_conversion, chk, ctx, rng, 12 if quick else 120)
-        timed('K wiring', k_wiring, chk, ctx, rng)
-        timed('K events', k_events, chk, ctx, rng)
-        timed('K export', k_export, chk, ctx, rng, 6 if quick else 40)
+        timed('K conversion', k_conversion, chk, ctx, R('k-conversion'), 12 if quick else 120)
+        timed('K wiring', k_wiring, chk, ctx, R('k-wiring'))
+        timed('K events', k_events, chk, ctx, R('k-events'))
+        timed('K export', k_export, chk, ctx, R('k-export'), 6 if quick else 40)
     timed('L3 edges', l3_edges, chk, ctx)
-    timed('L3 graph', l3_graph_vs_program, chk, ctx, rng, 40 if quick else 500, False, 1.0 if quick else 4.0)
-    timed('L3 ancient', l3_graph_vs_program, chk, ctx, rng, 14 if quick else 200, True, 1.0 if quick else 4.0)
-    timed('L3 metamorphic', l3_metamorphic, chk, ctx, rng, 10 if quick else 150, 1.0 if quick else 4.0)
-    timed('L3 export', l3_export, chk, ctx, rng, 30 if quick else 400, 1.0 if quick else 4.0)
+    timed('L3 graph', l3_graph_vs_program, chk, ctx, R('graph'), 40 if quick else 500, False, 1.0 if quick else 4.0)
+    timed('L3 ancient', l3_graph_vs_program, chk, ctx, R('ancient'), 14 if quick else 200, True, 1.0 if quick else 4.0)
+    timed('L3 metamorphic', l3_metamorphic, chk, ctx, R('metamorphic'), 10 if quick else 150, 1.0 if quick else 4.0)
+    timed('L3 export', l3_export, chk, ctx, R('export'), 30 if quick else 400, 1.0 if quick else 4.0)
 
 def replay(chk, ctx, data):
     REFINE_BUDGET[0] = 600.0; DEADLINE[0] = None
